@@ -62,6 +62,10 @@ inductive Cond where
   | not (a : Cond)
   | mode (f : ModeField)     -- vt.mode.f
   | lastCol                  -- vt.lastCol
+  | strEq (v : Nat) (lit : List Nat)   -- osc(): `<string local> == "<literal>"` (UTF-8 bytes)
+  | osc8                     -- vt.OSC8
+  | vxNil                    -- vt.vx == nil
+  | hostEmpty                -- osc() 11: `len(rgb) == 0` (the host terminal's answer: an input)
   deriving DecidableEq, Repr, Inhabited
 
 /-- which colour of the pen -/
@@ -218,6 +222,19 @@ inductive Stmt where
   | logErr
   /-- an `if` whose condition contains checked accesses into the parameter list (`params[i+1][0]`, `params[i][1]`) -/
   | iteP (c : Cond) (t f : Stmt)
+  /-- osc(): `a, b, f := cutString(src, ";")` (string locals `a`, `b`, bool local `f`; `none` = `_`) -/
+  | cut (a b f : Option Nat) (src : Nat)
+  /-- `vt.postEvent(…)` -/
+  | post
+  /-- `vt.cursor.Hyperlink = <string local>` / `vt.cursor.HyperlinkParams = <string local>` -/
+  | setLink (v : Nat)
+  | setLinkParams (v : Nat)
+  /-- osc() 11: `rgb := vt.vx.QueryBackground().Params()` (asks the HOST terminal; no effect on the emulator state) -/
+  | hostQuery
+  /-- osc() 52: `decodedBytes, err := base64.StdEncoding.DecodeString(<string local>)`: the bool local is `err != nil` -/
+  | b64Decode (err : Nat)
+  /-- osc() 52: `vt.vx.ClipboardPush(string(decodedBytes))` (a nil dereference without a Vaxis) -/
+  | clipPush
   /-- `fmt.Fprintf(vt.pty, …)`: a reply to the child; no effect on the emulator state -/
   | reply
   /-- `ch := vt.activeScreen[r][c]` (a copy of the cell, held in the frame) -/
